@@ -37,6 +37,7 @@ type solveOpts struct {
 	seed     int
 	workDir  string
 	jobs     int
+	fullCovers bool // cover/canary queries on the full assumption set (thorough tier)
 	only     string // restrict to one solver (name prefix)
 	all      bool   // wait for all solvers and record agreement
 }
@@ -83,6 +84,21 @@ func runSolver(ctx context.Context, s solverSpec, file string, opts solveOpts) s
 func solveObl(o *Obl, idx int, opts solveOpts) {
 	// first attempt on the relevant slice of the assumptions (sound for unsat); a sat / unknown
 	// answer on the slice is re-examined on the full query
+	if o.ExpectSat && !o.noSlice && !opts.fullCovers && len(o.ctx.asserts) > 400 {
+		// vacuity guards: an unsat answer on a slice of the assumptions is already a proof of vacuity;
+		// a sat answer on the slice is accepted in the quick tier (the thorough tier checks the full query)
+		sl := *o
+		sl.noSlice = true
+		sl.sliced = true
+		sl.hops = 4
+		so := opts
+		if so.timeoutS > 4 {
+			so.timeoutS = 4
+		}
+		solveObl(&sl, idx, so)
+		o.Result, o.Solver, o.TimeS, o.RawOut, o.File, o.Size, o.Agree, o.Model = sl.Result, sl.Solver+"+slice4", sl.TimeS, sl.RawOut, sl.File, sl.Size, sl.Agree, sl.Model
+		return
+	}
 	if !o.ExpectSat && !o.noSlice && len(o.ctx.asserts) > 400 {
 		for _, hops := range []int{3, 6, 0} {
 			sl := *o
@@ -258,6 +274,9 @@ func solveAll(obls []*Obl, opts solveOpts) {
 			o.Solver = "trivial"
 			continue
 		}
+		if o.Kind == "cover-pre" {
+			continue // solved on demand below
+		}
 		wg.Add(1)
 		sem <- struct{}{}
 		go func(i int, o *Obl) {
@@ -265,6 +284,19 @@ func solveAll(obls []*Obl, opts solveOpts) {
 			defer func() { <-sem }()
 			solveObl(o, i, opts)
 		}(i, o)
+	}
+	wg.Wait()
+	// pre-covers only for call sites whose post-cover came back unsat
+	for i, o := range obls {
+		if o.Kind == "cover" && o.Result == "unsat" && o.Pre != nil && o.Pre.Result == "" {
+			wg.Add(1)
+			sem <- struct{}{}
+			go func(i int, o *Obl) {
+				defer wg.Done()
+				defer func() { <-sem }()
+				solveObl(o, 100000+i, opts)
+			}(i, o.Pre)
+		}
 	}
 	wg.Wait()
 }
